@@ -13,6 +13,16 @@ import tool
 import wire
 
 THEOREMS = []
+import re
+import spec_iana
+UNSUPPORTED_BY_NAME = sorted(c for c, n in spec_iana.R.items()
+                             if re.search(r"ARIA|CAMELLIA_\d+_GCM|NULL|SEED|DES40|RC2|EXPORT|_DES_CBC", n))
+UNSUPPORTED_CLASSES = {}
+for _c in UNSUPPORTED_BY_NAME:
+    _n = spec_iana.R[_c]
+    _k = next(k for k in ("ARIA", "CAMELLIA", "NULL", "SEED", "DES40", "RC2", "EXPORT", "_DES_CBC") if k in _n) + \
+        ("-GCM" if "GCM" in _n else "")
+    UNSUPPORTED_CLASSES.setdefault(_k, []).append(_c)
 INFO_REMOVING = {"delete", "cut-after", "cut-before", "drop-keys", "unknown-suite", "http-on-443", "udp-noise",
                  "no-keys"}
 
@@ -139,9 +149,13 @@ def make_faults(mx, rng, exhaustive):
                 sid_len = payload[5 + 4 + 2 + 32]
                 off = 5 + 4 + 2 + 32 + 1 + sid_len
                 if off + 2 <= len(payload):
-                    p2 = payload[:off] + b"\x7f\x7f" + payload[off + 2:]
-                    faults.append(("unknown-suite", "unknown cipher-suite id in ServerHello",
-                                   items[:j] + [rebuilt(j, p2)] + items[j + 1:], kl))
+                    # an unassigned id, and registered ids whose NAME denotes something the decryptor has no routine for
+                    # (ARIA, Camellia-GCM, NULL, SEED, single DES, RC2, export suites): whatever the table says, such a
+                    # flow must export nothing
+                    for sid in [0x7f7f] + [rng.choice(v) for _, v in sorted(UNSUPPORTED_CLASSES.items())]:
+                        p2 = payload[:off] + sid.to_bytes(2, "big") + payload[off + 2:]
+                        faults.append(("unknown-suite", f"cipher-suite id {sid:#06x} (no decrypt routine for it) in ServerHello",
+                                       items[:j] + [rebuilt(j, p2)] + items[j + 1:], kl))
                 break
     return faults
 
@@ -184,12 +198,18 @@ def one(job):
     logging.disable(logging.CRITICAL)
     seed, victim_kind, ntls, nquic, exhaustive = job[:5]
     qfeat = job[5] if len(job) > 5 else None
+    forced = job[6] if len(job) > 6 else None          # cipher suite / version of the TLS victim
     rng = random.Random(seed)
+    # lengths 8 and 24 (= 8 mod 16): an AEAD record of that length has a block-aligned body when it is mistaken for CBC
     short = lambda: [(0, rng.randbytes(rng.randrange(1, 80))), (1, rng.randbytes(rng.randrange(1, 200))),
-                     (0, rng.randbytes(rng.randrange(0, 50))), (1, rng.randbytes(rng.randrange(1, 90)))]
+                     (0, rng.randbytes(rng.randrange(0, 50))), (1, rng.randbytes(rng.randrange(1, 90))),
+                     (0, rng.randbytes(8)), (1, rng.randbytes(24))]
     tls_n = ntls + (1 if victim_kind == "tls" else 0)
     quic_n = nquic + (1 if victim_kind == "quic" else 0)
-    mx = e2e.Mixed(rng, [e2e.random_combo(rng) for _ in range(tls_n)], n_quic=quic_n, noise=False,
+    combos = [e2e.random_combo(rng) for _ in range(tls_n)]
+    if forced and combos:
+        combos[0] = tuple(forced)
+    mx = e2e.Mixed(rng, combos, n_quic=quic_n, noise=False,
                    tls_app=[short() for _ in range(tls_n)],
                    quic_features=[dict(qfeat) for _ in range(quic_n)] if qfeat else None)
     if victim_kind == "quic":       # make the victim connection index 0
@@ -280,6 +300,11 @@ def explore(ctx, scale=1):
         # reach the bystanders' CRYPTO streams
         jobs.append((rng.getrandbits(48), "quic", 0, 2, True,
                      (("ch_split", "asc"), ("ch_cuts", (90 + 17 * k,)), ("ch_multi", True), ("retry", False), ("zero_rtt", False))))
+    for k in range(4 * scale):
+        # TLS <= 1.2 victims with CBC and AEAD suites (fixed suites, several segmentations): the ServerHello faults
+        # (unknown / unsupported suite ids) need a victim whose ServerHello sits whole in one segment
+        jobs.append((rng.getrandbits(48), "tls", 0, 1, False, None,
+                     [(0x002F, "tls12", False), (0x003C, "tls12", True), (0x0035, "tls11", False), (0x009C, "tls12", False)][k % 4]))
     results = tool.pmap(one, jobs) if ctx.thorough() else tool.pmap(one, jobs, procs=8)
     o = ctx.oracle.setdefault("fault-enumeration", {"runs": 0, "violations": 0})
     for job, res in zip(jobs, results):
